@@ -118,7 +118,7 @@ where
             Ok(response) => response.function_code(),
             Err(ExceptionResponse { function, .. }) => *function,
         };
-        if req_function_code != rsp_function_code {
+        if req_function_code.value() != rsp_function_code.value() {
             return Err(ProtocolError::FunctionCodeMismatch {
                 request: req_function_code,
                 result,
